@@ -1116,8 +1116,75 @@ def run(ck):
             finally:
                 shutil.rmtree(base, ignore_errors=True)
 
+    # ================================================================ SDMF share header (mutable/layout.py)
+    def sdmf_share_section():
+        """pack_share/unpack_share: the share header carries the offsets of every field up to EOF.  A strict prefix
+        of a packed share is a malformed encoding (the header announces more bytes than are present): it must be
+        refused, never sliced into shorter fields.  Cut points are directed at every field boundary and inside
+        every field, the last one (enc_privkey) in particular."""
+        from allmydata.mutable import layout as ml
+
+        def encode(d):
+            (seqnum, root_hash, IV, k, N, segsize, datalen, pubkey, sig, chain, bht, sdata, priv) = d
+            return ml.pack_share(ml.pack_prefix(seqnum, root_hash, IV, k, N, segsize, datalen),
+                                 pubkey, sig, chain, bht, sdata, priv)
+
+        n_cases = 6 if quick else 200
+        for i in range(n_cases):
+            if not mine():
+                continue
+            if ck.out_of_time():
+                return
+            datalen = rng.choice([0, 1, 100, 2000, rng.randint(0, 3000)])
+            privlen = rng.choice([1, 2, 33, 1216, rng.randint(1, 1500)])
+            N = rng.randint(1, 255); k = rng.randint(1, N)
+            chain = {rng.randrange(0, 600): rb(32) for _ in range(rng.randint(0, 4))}
+            v = (rng.choice([0, 1, 2 ** 64 - 1, rng.randint(0, 2 ** 64 - 1)]), rb(32), rb(16), k, N, datalen, datalen,
+                 rb(rng.choice([0, 1, 292])), rb(rng.choice([0, 1, 256])), chain,
+                 [rb(32) for _ in range(rng.choice([0, 1, 3]))], rb(datalen), rb(privlen))
+            ck.mon("roundtrip-oracle")
+            try:
+                share = encode(v)
+                got = ml.unpack_share(share)
+                o = ml.unpack_header(share)[-1]
+            except Exception as e:  # noqa
+                ck.violation("sdmf-share-raises-on-valid", "%s: %s" % (type(e).__name__, e), {"v": repr(v)[:300]})
+                continue
+            ck.hit("sdmf-share-roundtrip")
+            if got != v or o["EOF"] != len(share):
+                ck.violation("sdmf-share-roundtrip-mismatch", "unpack_share(pack_share(v)) != v, or the header's EOF "
+                             "offset is not the length of the packed share", {"v": repr(v)[:300], "got": repr(got)[:300]})
+                continue
+            ck.case("sdmf-share", key=share, nontrivial=True,
+                    sample={"len": len(share), "offsets": dict(o)} if i == 0 else None)
+            names = ["signature", "share_hash_chain", "block_hash_tree", "share_data", "enc_privkey", "EOF"]
+            cuts = {}
+            prev = ml.HEADER_LENGTH
+            for fi, name in enumerate(names):
+                field = ("pubkey",) + tuple(names)
+                lo, hi = prev, o[name]            # field[fi] occupies share[lo:hi]
+                for c in (lo, lo + 1, hi - 1, rng.randint(lo, max(lo, hi - 1))):
+                    if lo <= c < hi and c < len(share):
+                        cuts.setdefault(c, field[fi])
+                prev = hi
+            cuts.setdefault(ml.HEADER_LENGTH - 1, "header")
+            cuts.setdefault(0, "header")
+
+            def classify(op, v_, m_, d_):
+                return ("violation", "sdmf-share-%s" % op,
+                        "a share whose header announces %d bytes was cut to %d bytes and unpack_share returned fields "
+                        "instead of raising NeedMoreDataError; enc_privkey came back as %d bytes instead of %d"
+                        % (len(share), len(m_), len(d_[-1]), len(v_[-1])))
+            for c, where in sorted(cuts.items()):
+                op = "truncated-inside-%s-accepted" % where
+                r = judge("sdmf-share", op, v, share[:c], ml.unpack_share, encode, classify)
+                if r == "rejected" and where == "enc_privkey":
+                    ck.hit("sdmf-share-truncated-inside-enc_privkey-rejected")
+                ck.case("sdmf-share-truncation", key=(share, c), nontrivial=True)
+
     sections = [("base32", b32_section), ("base62", b62_section), ("netstring", netstring_section),
-                ("ueb", ueb_section), ("lease", lease_section), ("container", container_section)]
+                ("ueb", ueb_section), ("lease", lease_section), ("container", container_section),
+                ("sdmf-share", sdmf_share_section)]
     for name, fn in sections:
         try:
             fn()
